@@ -34,7 +34,7 @@ theorem C19_duplicate_rejected (env : Env) (s : State) (txs : List Tx) (fb : Hea
 theorem C19_duplicate_error (env : Env) (s : State) (tx : Tx) (fb : Header)
     (hk : tx.kind = .faucet) (hm : (s.coins.getCoin (markerOf env tx)).isSome)
     (hnet : s.network ≠ .mainnet ∨ env.isGrandfathered tx.hash = true)
-    (hwf : tx.isWellFormed = true ∧ tx.melTotalFits = true) (hin : tx.inputs = []) :
+    (hwf : tx.isWellFormed = true ∧ tx.melTotalFits = true) (hcw : tx.covWeightsFit = true) (hin : tx.inputs = []) :
     applyBatch env s [tx] fb = .reject .duplicateTx := by
   have hst : ∀ rel, createNextState env s [tx] rel s.tip906 = .reject .duplicateTx := by
     intro rel
@@ -53,7 +53,7 @@ theorem C19_duplicate_error (env : Env) (s : State) (tx : Tx) (fb : Header)
     · simp only [Outcome.foldlM', cnsStep, if_pos hdup]
     · simp only [Outcome.foldlM', cnsStep, if_neg hdup, if_pos hk, hf, Outcome.bind]
   have h1 : ∃ rel, loadRelevantCoins s [tx] = .ok rel := by
-    simp [loadRelevantCoins, hwf.1, hwf.2, hin, Outcome.foldlM', Outcome.bind]
+    simp [loadRelevantCoins, hwf.1, hwf.2, hcw, hin, Outcome.foldlM', Outcome.bind]
   obtain ⟨rel, h1⟩ := h1
   have h2 : loadStakeInfo s [tx] = .ok [] := by
     simp [loadStakeInfo, Outcome.foldlM', hk]
@@ -144,7 +144,7 @@ theorem C19_grandfathered_once_per_block (env : Env) (s : State) (txs : List Tx)
     grandfathering: the guard comes before the faucet step. -/
 theorem C19_grandfathered_once_per_block_error (env : Env) (s : State) (tx : Tx) (fb : Header)
     (hk : tx.kind = .faucet) (hdup : ∃ t ∈ s.txs, t.hash = tx.hash)
-    (hwf : tx.isWellFormed = true ∧ tx.melTotalFits = true) (hin : tx.inputs = []) :
+    (hwf : tx.isWellFormed = true ∧ tx.melTotalFits = true) (hcw : tx.covWeightsFit = true) (hin : tx.inputs = []) :
     applyBatch env s [tx] fb = .reject .duplicateTx := by
   have hany : (s.txs.any fun t => decide (t.hash = tx.hash)) = true := by
     obtain ⟨t, ht, e⟩ := hdup
@@ -154,7 +154,7 @@ theorem C19_grandfathered_once_per_block_error (env : Env) (s : State) (tx : Tx)
     rw [createNextState_eq]
     simp only [Outcome.foldlM', cnsStep, if_pos hany]
   have h1 : ∃ rel, loadRelevantCoins s [tx] = .ok rel := by
-    simp [loadRelevantCoins, hwf.1, hwf.2, hin, Outcome.foldlM', Outcome.bind]
+    simp [loadRelevantCoins, hwf.1, hwf.2, hcw, hin, Outcome.foldlM', Outcome.bind]
   obtain ⟨rel, h1⟩ := h1
   have h2 : loadStakeInfo s [tx] = .ok [] := by
     simp [loadStakeInfo, Outcome.foldlM', hk]
@@ -203,11 +203,11 @@ open C19Witness in
     same block — alone or twice in one batch — is rejected with `DuplicateTx` -/
 theorem C19_grandfathered_once_per_block_nonvacuous :
     env.isGrandfathered g.hash = true ∧ g.kind = .faucet ∧ g.inputs = [] ∧
-    (g.isWellFormed = true ∧ g.melTotalFits = true) ∧
+    (g.isWellFormed = true ∧ g.melTotalFits = true) ∧ g.covWeightsFit = true ∧
     applyBatch env s [g, g] default = .reject .duplicateTx ∧
     ∃ s₁, applyBatch env s [g] default = .ok s₁ ∧ s₁.coins.getCoin (markerOf env g) = none ∧
       (∃ t ∈ s₁.txs, t.hash = g.hash) ∧ applyBatch env s₁ [g] default = .reject .duplicateTx := by
-  refine ⟨rfl, rfl, rfl, ⟨by decide, by decide⟩, eq_of_isDup (by decide +kernel), ?_⟩
+  refine ⟨rfl, rfl, rfl, ⟨by decide, by decide⟩, by decide, eq_of_isDup (by decide +kernel), ?_⟩
   have h : (match applyBatch env s [g] default with
     | .ok s₁ => decide (s₁.coins.getCoin (markerOf env g) = none) && s₁.txs.any (fun t => t.hash = g.hash)
     | _ => false) = true := by decide +kernel
@@ -218,7 +218,7 @@ theorem C19_grandfathered_once_per_block_nonvacuous :
     obtain ⟨h1, t, ht, e⟩ := h
     have hdup : ∃ t ∈ s₁.txs, t.hash = g.hash := ⟨t, ht, e⟩
     exact ⟨s₁, rfl, h1, hdup,
-      C19_grandfathered_once_per_block_error env s₁ g default rfl hdup ⟨by decide, by decide⟩ rfl⟩
+      C19_grandfathered_once_per_block_error env s₁ g default rfl hdup ⟨by decide, by decide⟩ (by decide) rfl⟩
   | reject e => rw [hs] at h; cases h
   | crash c => rw [hs] at h; cases h
 
